@@ -1,4 +1,5 @@
 //! C11 harness instantiations (bodies in ar.rs / c04 / c05 / c06 / c07 / c18 / tr.rs)
+use crate::ar::*;
 use crate::util::*;
 
 include!("gen_c11.rs");
